@@ -113,6 +113,12 @@ func c15Compare(c *mon.Ctx, s string, origin string) {
 		c.Distinct(s)
 	}
 	if !realAccept {
+		// CreateEvaluator accepts precisely the same strings
+		if ev, cerr, pan, _ := createEval(s); pan != "" || cerr == nil || ev != nil {
+			d := detail()
+			d["create_err"], d["create_panic"] = fmt.Sprint(cerr), pan
+			c.Violation("C15 createevaluator-accepts-what-parse-rejects", "CreateEvaluator and grammar.Parse disagree", d)
+		}
 		return
 	}
 	tree, err := treeOf(obs.Val)
@@ -205,14 +211,14 @@ func c15Tokenize(s string) []string {
 	return toks
 }
 
-var c15Inserts = []string{"(", ")", "{", "}", "[", "]", ".", ",", "not", "and", "or", "in", "is", "empty", "any", "as", "_", "==", "!=", "1", "01", "-", `"`, "`", " ", "x", `"/p"`, `"\z"`, "contains", "matches", "\xff", "é", "1.", "0x1"}
+var c15Inserts = []string{"(", ")", "{", "}", "[", "]", ".", ",", "not", "and", "or", "in", "is", "empty", "any", "as", "_", "==", "!=", "1", "01", "-", `"`, "`", " ", "x", `"/p"`, `"\z"`, "contains", "matches", "\xff", "é", "1.", "0x1", "\v", "\f", "\u00a0", "\u2028", "\u0085"}
 
 func c15Mutate(r *rand.Rand, s string) string {
 	toks := c15Tokenize(s)
 	nm := 1 + r.Intn(2)
 	for m := 0; m < nm && len(toks) > 0; m++ {
 		i := r.Intn(len(toks))
-		switch r.Intn(7) {
+		switch r.Intn(8) {
 		case 0: // delete
 			toks = append(toks[:i:i], toks[i+1:]...)
 		case 1: // insert
@@ -225,6 +231,17 @@ func c15Mutate(r *rand.Rand, s string) string {
 			toks = append(toks[:i+1:i+1], toks[i:]...)
 		case 4: // replace
 			toks[i] = c15Inserts[r.Intn(len(c15Inserts))]
+		case 7: // rename an identifier to a keyword
+			var ids []int
+			for j, t := range toks {
+				if xgen.IsIdent(t) && !xgen.Keywords[t] {
+					ids = append(ids, j)
+				}
+			}
+			if len(ids) > 0 {
+				kws := []string{"in", "not", "and", "or", "is", "empty", "contains", "matches", "any", "all", "as"}
+				toks[ids[r.Intn(len(ids))]] = kws[r.Intn(len(kws))]
+			}
 		case 6: // raw control character inside a token
 			t := toks[i]
 			k := r.Intn(len(t) + 1)
@@ -238,7 +255,16 @@ func c15Mutate(r *rand.Rand, s string) string {
 			}
 		}
 	}
-	return strings.Join(toks, "")
+	out := strings.Join(toks, "")
+	if r.Intn(12) == 0 {
+		pad := []string{"\v", "\f", "\u00a0", "\u2028", "\u0085", "\u3000", "\x00"}[r.Intn(7)]
+		if r.Intn(2) == 0 {
+			out = pad + out
+		} else {
+			out += pad
+		}
+	}
+	return out
 }
 
 func c15Run(c *mon.Ctx, idx int) {
